@@ -409,3 +409,19 @@ Proof.
     apply fixed_width_order; [congruence | assumption | assumption |].
     eapply str_leb_prefix; [| exact B2]. congruence.
 Qed.
+
+(* ---- statements of Properties.v -------------------------------------------------------------- *)
+
+Lemma full_no_overwrite :
+  (forall fs folder name f content q k,
+     lookup fs q = Some k -> lookup (fst (write_dataset fs folder name f false content)) q = Some k)
+  /\ (forall fs folder name content q k,
+     lookup fs q = Some k -> lookup (fst (make_hdf5file fs folder name content)) q = Some k)
+  /\ (forall ops fs p k,
+     Forall (fun o => may_replace o p = false) ops -> lookup fs p = Some k -> lookup (srun fs ops) p = Some k).
+Proof.
+  repeat split.
+  - intros fs fo n f c q k H. apply write_no_overwrite. exact H.
+  - intros fs fo n c q k H. apply make_h5_no_overwrite. exact H.
+  - intros ops fs p k. apply srun_keeps.
+Qed.
